@@ -222,6 +222,8 @@ pub struct AWorld {
     pub tmp: Vec<PathBuf>,
     pub pend: Option<Arc<PendCtl>>,
     pub rt: tokio::runtime::Runtime,
+    /// roots of the layers of a TOP-LEVEL overlay (index 0 = write layer), for pre-population
+    pub layers: Vec<AsyncVfsPath>,
 }
 impl Drop for AWorld {
     fn drop(&mut self) {
@@ -231,6 +233,9 @@ impl Drop for AWorld {
     }
 }
 fn build_afs(t: &Term, tmp: &mut Vec<PathBuf>, rt: &tokio::runtime::Runtime) -> Box<dyn AsyncFileSystem> {
+    build_afs_top(t, tmp, rt, &mut vec![], false)
+}
+fn build_afs_top(t: &Term, tmp: &mut Vec<PathBuf>, rt: &tokio::runtime::Runtime, keep: &mut Vec<AsyncVfsPath>, top: bool) -> Box<dyn AsyncFileSystem> {
     match t {
         Term::Mem => Box::new(AsyncMemoryFS::new()),
         Term::Phys => {
@@ -248,6 +253,9 @@ fn build_afs(t: &Term, tmp: &mut Vec<PathBuf>, rt: &tokio::runtime::Runtime) -> 
         }
         Term::Ovl(layers) => {
             let roots: Vec<AsyncVfsPath> = layers.iter().map(|l| AsyncVfsPath::new(BoxAFS(build_afs(l, tmp, rt)))).collect();
+            if top {
+                *keep = roots.clone();
+            }
             Box::new(AsyncOverlayFS::new(&roots))
         }
         Term::Fault(inner) => build_afs(inner, tmp, rt),
@@ -279,14 +287,15 @@ pub fn abuild(cfg: &str, pending: bool) -> AWorld {
     let term = parse(cfg);
     let rt = tokio::runtime::Builder::new_current_thread().enable_all().build().unwrap();
     let mut tmp = vec![];
-    let fs = build_afs(&term, &mut tmp, &rt);
+    let mut layers = vec![];
+    let fs = build_afs_top(&term, &mut tmp, &rt, &mut layers, true);
     let (root, pend) = if pending {
         let ctl = PendCtl::new();
         (AsyncVfsPath::new(PendingFS { inner: fs, ctl: ctl.clone() }), Some(ctl))
     } else {
         (AsyncVfsPath::new(BoxAFS(fs)), None)
     };
-    AWorld { root, term, cfg: cfg.to_string(), tmp, pend, rt }
+    AWorld { root, term, cfg: cfg.to_string(), tmp, pend, rt, layers }
 }
 
 pub fn apath(cx: &Conc, root: &AsyncVfsPath, p: &[String]) -> AsyncVfsPath {
@@ -494,10 +503,43 @@ pub struct ASession {
     pub cx: Conc,
     pub universe: Vec<Vec<String>>,
     pub rot: usize,
+    /// what the layers of a top-level overlay were pre-populated with (layer contents, marker paths)
+    pub init_layers: Option<(Vec<Option<Snap>>, Vec<Vec<String>>)>,
 }
 impl ASession {
     pub fn new(cfg: &str, names: &str, b: usize, universe: &[Vec<String>]) -> ASession {
-        ASession { w: abuild(cfg, false), cx: Conc::new(names, b), universe: universe.to_vec(), rot: 0 }
+        ASession { w: abuild(cfg, false), cx: Conc::new(names, b), universe: universe.to_vec(), rot: 0, init_layers: None }
+    }
+    /// pre-populate the layers of a top-level overlay through their own handles, and the whiteout markers of
+    /// a write layer that was used before
+    pub fn populate_layers(&mut self, snaps: &[Option<Snap>], markers: &[Vec<String>]) {
+        let cx = &self.cx;
+        self.w.rt.block_on(async {
+            for (root, snap) in self.w.layers.iter().zip(snaps.iter()) {
+                if let Some(snap) = snap {
+                    for (p, n) in self.universe.iter().zip(snap.iter()) {
+                        match n[0] {
+                            0 => {}
+                            1 => apath(cx, root, p).create_dir().await.expect("populate layer dir"),
+                            _ => {
+                                let mut h = apath(cx, root, p).create_file().await.expect("populate layer file");
+                                h.write_all(&conc_bytes(&n[1..], cx.b)).await.unwrap();
+                                h.flush().await.unwrap();
+
+                            }
+                        }
+                    }
+                }
+            }
+            for m in markers {
+                let p = self.w.layers[0].join(format!(".whiteout/{}_wo", cx.names.conc_path(m))).expect("marker path");
+                p.parent().create_dir_all().await.expect("marker parent");
+                let mut h = p.create_file().await.expect("marker file");
+                h.flush().await.unwrap();
+
+            }
+        });
+        self.init_layers = Some((snaps.to_vec(), markers.to_vec()));
     }
     pub fn populate_state(&self, snap: &Snap) {
         let cx = &self.cx;
@@ -518,8 +560,28 @@ impl ASession {
     pub fn init_event(&mut self) -> Value {
         self.rot += 1;
         let obs = self.w.rt.block_on(aobserve(&self.w.root, &self.universe, &self.cx, self.rot));
-        json!({"ev":"init","cfg":format!("async:{}", self.w.cfg),"kind":format!("a{}", self.w.term.kind()),"sup":asup(&self.w.term),"ro":false,
-               "names":self.cx.names.id,"b":self.cx.b,"universe":self.universe,"obs":obs})
+        let mut e = json!({"ev":"init","cfg":format!("async:{}", self.w.cfg),"kind":format!("a{}", self.w.term.kind()),"sup":asup(&self.w.term),"ro":false,
+               "names":self.cx.names.id,"b":self.cx.b,"universe":self.universe,"obs":obs});
+        if let Some((snaps, markers)) = &self.init_layers {
+            // the layer contents as they were written (same record shape as a raw snapshot of a sync layer)
+            let layers: Vec<Value> = snaps
+                .iter()
+                .map(|s| {
+                    let mut ents = vec![];
+                    if let Some(s) = s {
+                        for (p, n) in self.universe.iter().zip(s.iter()) {
+                            if n[0] != 0 {
+                                ents.push(json!({"p":p,"k": if n[0] == 1 {"dir"} else {"file"},"len": n.len() - 1,"cr":"none","mo":"none","ac":"none","d": n[1..].to_vec()}));
+                            }
+                        }
+                    }
+                    Value::Array(ents)
+                })
+                .collect();
+            e["layers"] = Value::Array(layers);
+            e["wo"] = json!(markers);
+        }
+        e
     }
     pub fn step(&mut self, op: &Op) -> Value {
         self.rot += 1;
